@@ -559,8 +559,25 @@ func (w *World) unary(ctx context.Context, full string, md protoreflect.MethodDe
 }
 
 func (w *World) stream(full string, md protoreflect.MethodDescriptor, stream grpc.ServerStream) error {
-	ctx := stream.Context()
-	rs := w.lookup(ctx)
+	// A local handler runs on its request's goroutine, which the simulator
+	// knows: such a handler can be told its script without asking the stream
+	// for its context first (lazy_ctx).
+	var ctx context.Context
+	var rs *reqState
+	if w.tag == "local" {
+		if sl := w.sim.CurrentSlot(); sl != nil {
+			for _, q := range w.reqs {
+				if q.hSlot == sl && q.spec.LazyCtx && len(q.spec.Handler.Steps) == 1 && q.spec.Handler.Steps[0].Op == "duplex" {
+					rs, ctx = q, context.Background() // (stands in until the duplex step asks the stream)
+				}
+			}
+		}
+	}
+	lazy := rs != nil
+	if !lazy {
+		ctx = stream.Context()
+		rs = w.lookup(ctx)
+	}
 	if rs == nil {
 		return status.Errorf(codes.FailedPrecondition, "sim: no script for request (method %s)", full)
 	}
@@ -678,6 +695,9 @@ func (w *World) stream(full string, md protoreflect.MethodDescriptor, stream grp
 				defer fin.set()
 				w.sim.Bind(h2)
 				defer w.sim.Unbind()
+				if lazy {
+					_ = stream.Context().Err() // this goroutine's first look at the context
+				}
 				for h2.Yield("h2.recv", core.Always, 0) {
 					m := newMsgByDesc(md.Input())
 					start := w.sim.StepNo()
@@ -695,6 +715,9 @@ func (w *World) stream(full string, md protoreflect.MethodDescriptor, stream grp
 					l.setRecv(len(rRecv), false)
 				}
 			}()
+			if lazy {
+				ctx = stream.Context() // ... and this one's, unordered with the other's
+			}
 			for next < len(spec.Resps) && !sendFailed && yield("h.send") {
 				sendOne(next)
 				next++
